@@ -66,7 +66,9 @@ type_to_name: Dict[str, str] = {
 }
 
 line_length: int = int(environ.get("DOCTRANS_LINE_LENGTH", 100))
-fill: Callable[[str], str] = partial(_fill, width=line_length)
+fill: Callable[[str], str] = partial(
+    _fill, width=line_length, break_on_hyphens=False, break_long_words=False
+)
 
 ENCODING: str = "# -*- coding: utf-8 -*-"
 
